@@ -91,7 +91,9 @@ def real_apply(cfg, op):
 def bounds(tier):
     if tier == 'quick':
         return {'depth_full': 2, 'full_variants': ('sift', 'mask_sift'), 'depth_small': 3, 'small_variants': ('ensemble_sift',), 'signals': 2}
-    return {'depth_full': 3, 'full_variants': VARIANTS, 'depth_small': 4, 'small_variants': ('mask_sift', 'sift'), 'signals': 4}
+    # 147 operations in the full alphabet: depth 3 = 3.2 M histories per variant, affordable for one variant only
+    return {'depth_full': 2, 'full_variants': VARIANTS, 'depth_small': 3, 'small_variants': VARIANTS, 'signals': 4,
+            'deep_variant': 'sift', 'deep_depth': 3}
 
 
 def norm(v):
@@ -368,6 +370,13 @@ def run(ctx):
                      timeout_s=TIMEOUT, serial=ctx.serial)
     for r in (r1, r2):
         rep.merge(r)
+    if b.get('deep_variant'):
+        r3 = history.bfs([(b['deep_variant'], ctx.seed)], ops_full(), transition, b['deep_depth'], dedup=True, timeout_s=TIMEOUT,
+                         serial=ctx.serial)
+        rep.merge(r3)
+        ctx.coverage_extra['bfs_full_deep'] = {'variant': b['deep_variant'], 'depth': r3.extra['max_depth'], 'per_depth': r3.extra['per_depth']}
+        r1.evaluations += r3.evaluations
+        r1.extra['distinct_states'] += r3.extra['distinct_states']
     rep.evaluations = r0.evaluations + r1.evaluations + r2.evaluations + len(dcases)
     ctx.coverage_extra['states'] = r0.extra['distinct_states'] + r1.extra['distinct_states'] + r2.extra['distinct_states']
     ctx.coverage_extra['bfs_full'] = {'depth': r1.extra['max_depth'], 'per_depth': r1.extra['per_depth'], 'ops': len(ops_full())}
